@@ -20,7 +20,7 @@ namespace AIToolbox::MDP {
     double QLearning::getLearningRate() const { return alpha_; }
 
     void QLearning::setDiscount(const double d) {
-        if ( d <= 0.0 || d > 1.0 ) throw std::invalid_argument("Discount parameter must be in (0,1]");
+        if ( !(d > 0.0 && d <= 1.0) ) throw std::invalid_argument("Discount parameter must be in (0,1]");
         discount_ = d;
     }
 
